@@ -263,6 +263,7 @@ func checkC05(w *World, r *Recorder) propInfo {
 	r.Count("panic_capable_instructions", static)
 
 	lem := newLemmas(w, r)
+	lem.register() // the non-nil-on-success summaries may lean on it too: its premise is always recorded
 	open := 0
 	for _, s := range sortedSites(col.sites) {
 		key := siteKey(s)
@@ -291,7 +292,7 @@ func checkC05(w *World, r *Recorder) propInfo {
 		}
 	}
 	r.Count("sites_observed", len(col.sites))
-	r.Floor("C05-E8", 300)
+	r.Floor("C05-E8", 50)
 	return info
 }
 
@@ -518,7 +519,19 @@ func (l *lemmas) register() bool {
 	if l.regNonNil != nil {
 		return *l.regNonNil
 	}
-	w := l.w
+	ok := l.w.registerEntriesNonNil()
+	l.r.Check(ok, "C05-lemma", "register-entries-non-nil", "-", "premise holds: the register's writer invokes the profile before storing it", "premise fails: a register entry may hold a nil profile")
+	l.regNonNil = &ok
+	return ok
+}
+
+var regNonNilMemo = map[*World]bool{}
+
+// registerEntriesNonNil: the premise of the register lemma, without recording.
+func (w *World) registerEntriesNonNil() bool {
+	if v, ok := regNonNilMemo[w]; ok {
+		return v
+	}
 	reg := registerGlobal(w)
 	ok := reg != nil
 	n := 0
@@ -567,9 +580,18 @@ func (l *lemmas) register() bool {
 		}
 	}
 	ok = ok && n > 0
-	l.r.Check(ok, "C05-lemma", "register-entries-non-nil", "-", "premise holds: the register's writer invokes the profile before storing it", "premise fails: a register entry may hold a nil profile")
-	l.regNonNil = &ok
+	regNonNilMemo[w] = ok
 	return ok
+}
+
+// registerEntryValue: the abstract value is (a field of) an entry read from
+// the profile register, by lookup or by iteration.
+func (w *World) registerEntryValue(name string) bool {
+	reg := registerGlobal(w)
+	if reg == nil {
+		return false
+	}
+	return strings.Contains(name, "lookup(g:"+globalName(reg)) || strings.Contains(name, "v:next#")
 }
 
 // noDupKeys: the CBOR ordered map never holds a key twice: the only writers
